@@ -127,7 +127,7 @@ Definition is_other (sep : N) (b : N) : bool :=
 
 Definition skip_other_step (sep : N) : step := fun s =>
   let stop := match s with
-              | 36 :: d :: _ => d =? sep
+              | c :: d :: _ => (c =? 36) && (d =? sep)
               | _ => false
               end in
   if stop then Ok None
@@ -190,9 +190,11 @@ Definition expr_modifier_at (s : str) : res (bool * str) :=
 (* isEscapedModifierPart(end, subst) *)
 Definition is_escaped_modifier_part (end_ : N) (subst : bool) (s : str) : bool :=
   match s with
-  | 92 :: d :: _ =>
-    if (d =? end_) || (d =? 92) || (d =? 36) then true
-    else (d =? 38) && subst
+  | c :: d :: _ =>
+    if c =? 92 then
+      if (d =? end_) || (d =? 92) || (d =? 36) then true
+      else (d =? 38) && subst
+    else false
   | _ => false
   end.
 
@@ -351,8 +353,9 @@ Definition expr_alnum (s : str) : res (option str) :=
 (* the body of Expr, with the recursive calls going to E *)
 Definition expr_body (s : str) : res (option str) :=
   match s with
-  | 36 :: c :: _ =>
-    if (c =? 123) || (c =? 40) then expr_brace (c =? 40) s
+  | c0 :: c :: _ =>
+    if negb (c0 =? 36) then Ok None
+    else if (c =? 123) || (c =? 40) then expr_brace (c =? 40) s
     else if c =? 36 then Ok None
     else if existsb (N.eqb c) [62; 33; 60; 37; 63; 42; 64] then
       r <- skip 2 s ;; Ok (Some r)
